@@ -14,7 +14,16 @@ def main():
     from vf import runner
 
     pid = a.pid.upper()
-    code = runner.run_check(pid, a.tier, f"harness.{pid.lower()}")
+    try:
+        code = runner.run_check(pid, a.tier, f"harness.{pid.lower()}")
+    except SystemExit:
+        raise
+    except BaseException as e:  # noqa: BLE001  an internal failure is never a verdict
+        import traceback
+
+        traceback.print_exc()
+        print(f"INCONCLUSIVE property={pid} reason=internal error {type(e).__name__}: {e}")
+        code = 2
     sys.exit(code)
 
 
